@@ -69,7 +69,12 @@ class Check(PropertyCheck):
                   "exactly those arguments), the curl argv decodes to the request's method/url/headers for ALL requests, the "
                   "body is exact for all texts without C0 controls (and, under a printf that knows \\x, for all texts not "
                   "ending in a newline), counterexamples for the rest, and the raw export reads back; the model and the real "
-                  "exporter are tied by executing the real strings under /bin/sh (dash) and bash with stub curl/http programs.")
+                  "exporter are tied by executing the real strings under /bin/sh (dash) and bash with stub curl/http programs. "
+                  "Round 3: curl_command_single_command / httpie_command_single_command (EVERY command line the exporter can emit - "
+                  "any request, body kind, option setting, either printf flavour - is read as one simple command whose argv starts "
+                  "with curlArgs / equals httpieArgs), httpie_body_ctl_nohex, curl_refused_iff_binary, popHeaders_sublist and "
+                  "popHeaders_keeps_others (pop_headers only removes Content-Length / Host / :authority lines), assemble_chunked and "
+                  "raw_chunked_parses_back (the chunk-framed raw export reads back for every content).")
     level_note = ("POSIX shell semantics are modelled for the emitted constructs only and validated against dash and bash, not "
                   "proved of any shell; NUL cannot be passed in argv and is excluded from generated fields; httpie is not "
                   "installed: its reading of the argv is taken as [http, METHOD, URL, 'name: value'...]; pretty_url/pretty_host/"
@@ -79,9 +84,9 @@ class Check(PropertyCheck):
                   "(deliberate substitution by the exporter). body_exact is proved only as body_exact_partial with "
                   "counterexamples (F-C48b trailing newline under $(...), F-C48d printf \\x under dash); F-C48c ('@' prefix) is a "
                   "curl-semantics finding (the argv is exact). `$(printf ...)` also runs the shell's printf: 'executes only curl' "
-                  "is read as 'no command other than curl and the exporter's own fixed printf'. raw_parses_back is proved for "
-                  "the non-chunked, trailer-free assemble path against a minimal reader; chunked re-framing is tied by the "
-                  "differential run and the Python reference parser only.")
+                  "is read as 'no command other than curl and the exporter's own fixed printf'. raw_parses_back (non-chunked) and "
+                  "raw_chunked_parses_back (Transfer-Encoding: chunked, every content) are proved for the trailer-free assemble "
+                  "paths against a minimal reader written in the model; the strict Python reference parser judges the real bytes.")
     technique = "Lean 4 proof (induction over arguments/bytes) + execution of the real exports under real shells with stub programs"
     rule = ("requests with ~60% plain and ~40% hostile material (shell metacharacters, quotes, control characters, %, "
             "backslashes, non-UTF-8 bytes; never NUL) in method, host, path, header names and values; bodies: none, text soups, "
